@@ -24,6 +24,9 @@ struct View {
     /// connections whose handler did not acknowledge within the timeout (a tick of a second or more passed
     /// while the wantlist was only requested): the behaviour gives them up, their handlers may still report
     given_up: Vec<(u64, u64)>,
+    /// virtual time and the end of the running refresh period, as the behaviour's timer sees them
+    now: u64,
+    refresh_at: u64,
 }
 
 fn absorb(view: &mut View, out: &str) {
@@ -139,7 +142,7 @@ pub fn node_stream(seed: u64, histories: usize, cfg: Cfg) -> Sink {
         let mut ex = NodeExec::with_variant(sdh, variant, tables.clone());
         sink.count(match variant { b'a' => "node.builder.prefix-then-option", b'b' => "node.builder.option-then-prefix", _ => "node.builder.option-only" });
         sink.push(format!("n reset {}{}", sdh as u8, if variant == b' ' { String::new() } else { (variant as char).to_string() }), "ok".into(), "-".into());
-        let mut view = View { conns: BTreeMap::new(), next_conn: 1, queries: vec![], pending: BTreeMap::new(), handshake: BTreeMap::new(), given_up: vec![] };
+        let mut view = View { conns: BTreeMap::new(), next_conn: 1, queries: vec![], pending: BTreeMap::new(), handshake: BTreeMap::new(), given_up: vec![], now: 0, refresh_at: 30_000 };
         let nops = cfg.ops / 2 + rng.below(cfg.ops);
         let mut i = 0;
         let mut want_drain = false;
@@ -181,6 +184,22 @@ pub fn node_stream(seed: u64, histories: usize, cfg: Cfg) -> Sink {
                     script.push_back(o);
                 }
                 sink.count("node.scripted-exchange");
+            }
+            // now and then: a new session of another peer (its first wantlist is a full one) shortly before the refresh
+            // period ends, then the end of the period — the refresh of the peers that were there before is not postponed
+            if script.is_empty() && !want_drain && !view.conns.is_empty() && view.refresh_at > view.now + 8_000 && rng.chance(1, 40) {
+                let q = (0..cfg.peers).find(|q| !view.conns.contains_key(q));
+                if let Some(q) = q {
+                    let c = view.next_conn;
+                    view.next_conn += 1;
+                    view.conns.entry(q).or_default().insert(c);
+                    let before = view.refresh_at - view.now - 5_000;
+                    for o in [Some(format!("tick {before}")), None, Some(format!("connect {q} {c}")), None, Some(format!("@ready {q}")), None,
+                              Some("tick 6000".to_string()), None, None] {
+                        script.push_back(o);
+                    }
+                    sink.count("node.scripted-refresh");
+                }
             }
             let mut scripted = script.pop_front();
             if scripted == Some(Some("@missall".to_string())) {
@@ -384,6 +403,13 @@ pub fn node_stream(seed: u64, histories: usize, cfg: Cfg) -> Sink {
                 sink.count("node.newblocks");
                 Some(format!("newblocks {}", b.iter().map(|(k, d)| format!("{k}:{d}")).collect::<Vec<_>>().join(",")))
             };
+            if let Some(o) = &op {
+                if let Some(ms) = o.strip_prefix("tick ") {
+                    view.now += ms.parse::<u64>().unwrap_or(0);
+                }
+            } else if view.now >= view.refresh_at {
+                view.refresh_at = view.now + 30_000;
+            }
             match op {
                 Some(op) => {
                     let out = ex.exec(&op);
